@@ -765,19 +765,36 @@ type valueSite struct {
 
 func valueSites(fn *Fn, at ast.Node, val ast.Expr) []valueSite {
 	g := fn.enclosing(at)
-	if lc, ok := ast.Unparen(val).(*ast.CallExpr); ok {
-		if lit := g.litOfCallee(lc); lit != nil {
-			h := g.enclosing(lit).Closure(lit)
-			var out []valueSite
-			for _, r := range h.Returns() {
-				if len(r.Results) == 1 {
-					out = append(out, valueSites(h, r, r.Results[0])...)
-				} else {
-					return []valueSite{{g, at, val}}
-				}
+	fromLit := func(lc *ast.CallExpr, idx int) []valueSite {
+		lit := g.litOfCallee(lc)
+		if lit == nil {
+			return nil
+		}
+		h := g.enclosing(lit).Closure(lit)
+		var out []valueSite
+		for _, r := range h.Returns() {
+			if idx >= len(r.Results) {
+				return nil
 			}
-			if len(out) > 0 {
-				return out
+			if idx != len(r.Results)-1 && h.returnsFailure(r) {
+				continue // the value that accompanies a failure is not used
+			}
+			out = append(out, valueSites(h, r, r.Results[idx])...)
+		}
+		return out
+	}
+	if lc, ok := ast.Unparen(val).(*ast.CallExpr); ok {
+		if out := fromLit(lc, 0); len(out) > 0 {
+			return out
+		}
+	}
+	// a local that holds one result of such a call
+	if v := g.varOf(val); v != nil {
+		if defs := g.defsOf(v); len(defs) == 1 && defs[0].rhs != nil {
+			if lc, ok := ast.Unparen(defs[0].rhs).(*ast.CallExpr); ok {
+				if out := fromLit(lc, defs[0].idx); len(out) > 0 {
+					return out
+				}
 			}
 		}
 	}
